@@ -800,14 +800,23 @@ func (e *d18Env) intake(p *d18Peer) {
 		}
 		if fr.Req < 0 || fr.Req >= len(e.sent) {
 			e.logf("  <- c%d frame with UNKNOWN RequestId %x type=%d result=%d", p.idx, fr.ReqId, fr.Type, fr.Result)
-			e.fail("C18:misrouted:unknown-request-id", "connection c%d received a frame whose RequestId %x no binary connection of the harness ever sent (type %d, result %s, LockId idx %d, key idx %d)",
+			key := "C18:misrouted:unknown-request-id"
+			if p.cid == 2 {
+				key = d18KeyZeroId // server-generated RequestId of a dead text connection's request
+			}
+			e.fail(key, "connection c%d received a frame whose RequestId %x no binary connection of the harness ever sent (type %d, result %s, LockId idx %d, key idx %d)",
 				p.idx, fr.ReqId, fr.Type, aResultName(fr.Result), d18LockIdx(fr.LockId), d18KeyIdx(fr.Key))
 			continue
 		}
 		s := e.sent[fr.Req]
 		e.logf("  <- c%d %s reply to #%d (c%d %s %v)", p.idx, aResultName(fr.Result), fr.Req, s.Conn, s.What, s.Cmd)
 		if !e.allowedReq(p, s) {
-			e.fail("C18:misrouted:reply-on-foreign-connection", "connection c%d (client id %d) received the %s reply to request #%d, which connection c%d (client id %d) sent: %v",
+			key := "C18:misrouted:reply-on-foreign-connection"
+			if p.cid == 2 && e.cidOf(s.Conn) < 0 {
+				// the receiver announced the all-zero client id, the sender never announced one
+				key = d18KeyZeroId
+			}
+			e.fail(key, "connection c%d (client id %d) received the %s reply to request #%d, which connection c%d (client id %d) sent: %v",
 				p.idx, p.cid, aResultName(fr.Result), fr.Req, s.Conn, e.cidOf(s.Conn), s.Cmd)
 			continue
 		}
@@ -973,7 +982,38 @@ func (e *d18Env) stepOpen(st d18Step) {
 	e.settle()
 }
 
+// idQueued: a request bearing this LockId is still queued on the key.
+func (e *d18Env) idQueued(c d18Cmd) bool {
+	if c.Op != "lock" {
+		return false
+	}
+	key, id := d18Key(c.Key), d18LockId(c.Id)
+	for _, k := range e.snapshot().keys {
+		if k.Key != key {
+			continue
+		}
+		for _, w := range k.Waiters {
+			if w.Id == id {
+				return true
+			}
+		}
+	}
+	return false
+}
+
 func (e *d18Env) stepSend(st d18Step) {
+	if len(st.Cmds) > 0 {
+		var keep []d18Cmd
+		for _, c := range st.Cmds {
+			if e.idQueued(c) {
+				e.info.Skipped++
+				e.logf("   (skipped %v: a request with this LockId is still queued on the key)", c)
+				continue
+			}
+			keep = append(keep, c)
+		}
+		st.Cmds = keep
+	}
 	p := e.peer(st.C)
 	if p == nil || !p.opened || p.dead || p.closing || p.closeReq != nil {
 		e.info.Skipped++
@@ -1270,6 +1310,7 @@ func (e *d18Env) afterClose(p *d18Peer, st d18Step, pre *d18Snap) {
 func (e *d18Env) stepTick(n int) {
 	for s := 0; s < n; s++ {
 		before := e.snapshot()
+		closesBefore := e.info.Closes
 		e.now++
 		d := e.db
 		d.currentTime = e.now
@@ -1292,12 +1333,12 @@ func (e *d18Env) stepTick(n int) {
 		if e.viol != nil {
 			return
 		}
-		e.checkClock(before, e.snapshot())
+		e.checkClock(before, e.snapshot(), e.info.Closes != closesBefore)
 	}
 }
 
 // checkClock: property parts 2 and 3 against the virtual clock.
-func (e *d18Env) checkClock(before, after *d18Snap) {
+func (e *d18Env) checkClock(before, after *d18Snap, unlocksPossible bool) {
 	type hk struct {
 		key, id [16]byte
 	}
@@ -1314,6 +1355,10 @@ func (e *d18Env) checkClock(before, after *d18Snap) {
 				e.fail("C18:clock:queued-request-never-ends", "at t+%d the request id%d is still queued on key k%d although its timeout was t+%d", e.now-d18Epoch, d18LockIdx(w.Id), d18KeyIdx(k.Key), w.TimeoutTime-d18Epoch)
 			}
 		}
+	}
+	if unlocksPossible {
+		// a deferred close ran inside this second: its wills may have unlocked something
+		return
 	}
 	for _, k := range before.keys {
 		for _, h := range k.Holders {
@@ -1527,6 +1572,22 @@ func d18Check(c *d18Case, noGuard bool) (info d18Info, viol *d18Violation, err e
 			if st.K == "send" && isWillReg {
 				key = "C18:will:effect-before-close"
 			}
+			if st.K == "close" {
+				text := false
+				for _, o := range c.Steps {
+					if o.K == "open" && o.C == st.C {
+						text = o.Text
+					}
+				}
+				if text {
+					key = "C18:will:effects-differ-from-reference:text"
+					if i > 0 && real.Snaps[i] == real.Snaps[i-1] {
+						key = "C18:text:will-never-executed"
+					}
+				} else {
+					key = "C18:will:effects-differ-from-reference:binary"
+				}
+			}
 		}
 		v := &d18Violation{Key: key, Msg: fmt.Sprintf("lock table %s differs from the reference (each will executed exactly once, in registration order, at the close)\nobserved:\n%s\nreference:\n%s\ncase:\n%shistory of the real run:\n%s",
 			what, d18Indent(real.Snaps[i]), d18Indent(ref.Snaps[i]), c.String(), real.Hist)}
@@ -1564,6 +1625,9 @@ func w18TopFunc(stack string) string {
 }
 
 func d18TrimStack(s string) string {
+	if os.Getenv("D18_FULLSTACK") != "" {
+		return s
+	}
 	lines := strings.Split(s, "\n")
 	var out []string
 	for _, l := range lines {
